@@ -86,7 +86,20 @@ def bit_constants(repo: Repo, fi):
     """Integer constants used as bit masks (operands of & and |) and shift distances in a function and in the helpers a later
     refactoring extracted from it; a module-level name bound to an integer counts as that integer."""
     masks, shifts = set(), set()
-    for f in repo.with_fresh_callees(fi):
+    # ... and in the functions of the same module it hands part of the work to (forge_int may leave the 7-bit groups to forge_nat)
+    family = list(repo.with_fresh_callees(fi))
+    seen = {f.qualname for f in family}
+    todo = list(family)
+    while todo:
+        g = todo.pop()
+        for c in ast.walk(g.node):
+            if isinstance(c, ast.Call) and isinstance(c.func, ast.Name):
+                kind, obj = repo.lookup(repo.resolve_name(g.module, c.func.id))
+                if kind == 'func' and obj.module is fi.module and obj.qualname not in seen:
+                    seen.add(obj.qualname)
+                    family.append(obj)
+                    todo.append(obj)
+    for f in family:
         def const(n, f=f):
             if isinstance(n, ast.Constant):
                 return n.value if isinstance(n.value, int) and not isinstance(n.value, bool) else None
@@ -119,6 +132,7 @@ def bit_constants(repo: Repo, fi):
                 c = const(operands[-1])
                 if c is not None:
                     shifts.add(c)
+    masks.discard(0)  # `x | 0`: no bit at all
     return masks, shifts
 
 
